@@ -4,6 +4,7 @@
 // explicit event list is executed against the real check-ups and the statement's model.
 #include <cfloat>
 #include <memory>
+#include <optional>
 #include <queue>
 #include "../sim/core/runner.hpp"
 #include "../models/checkup.hpp"
@@ -17,7 +18,7 @@ namespace rc = romea::core;
 
 namespace {
 
-struct CU {int kind; std::string name; double a, b;};
+struct CU {int kind; std::string name; double a, b; int initStatus = -1; std::string initMessage;};   // initStatus >= 0: constructed with an initial Diagnostic
 
 struct Ev
 {
@@ -72,10 +73,13 @@ Outcome runPlan(const Plan & p, Ctx & c)
   for (size_t k = 0; k < n; ++k) {
     const CU & u = p.cus[k];
     subj[k].kind = u.kind; mod[k] = model::CheckupModel(u.kind, u.name, u.a, u.b);
+    const bool init = u.initStatus >= 0 && u.kind != model::Reliability;
+    rc::Diagnostic d0 = init ? rc::Diagnostic((rc::DiagnosticStatus)u.initStatus, u.initMessage) : rc::Diagnostic();
+    if (init) {mod[k].rep.status = u.initStatus; mod[k].rep.message = u.initMessage; SIM_PROBE("constructed_with_initial_diagnostic");}
     switch (u.kind) {
-      case model::EqualTo: subj[k].c.reset(new rc::CheckupEqualTo<double>(u.name, u.a, u.b)); break;
-      case model::GreaterThan: subj[k].c.reset(new rc::CheckupGreaterThan<double>(u.name, u.a, u.b)); break;
-      case model::LowerThan: subj[k].c.reset(new rc::CheckupLowerThan<double>(u.name, u.a, u.b)); break;
+      case model::EqualTo: subj[k].c.reset(init ? new rc::CheckupEqualTo<double>(u.name, u.a, u.b, d0) : new rc::CheckupEqualTo<double>(u.name, u.a, u.b)); break;
+      case model::GreaterThan: subj[k].c.reset(init ? new rc::CheckupGreaterThan<double>(u.name, u.a, u.b, d0) : new rc::CheckupGreaterThan<double>(u.name, u.a, u.b)); break;
+      case model::LowerThan: subj[k].c.reset(init ? new rc::CheckupLowerThan<double>(u.name, u.a, u.b, d0) : new rc::CheckupLowerThan<double>(u.name, u.a, u.b)); break;
       default: subj[k].r.reset(new rc::CheckupReliability(u.name, u.a, u.b));
     }
   }
@@ -160,6 +164,13 @@ Outcome runPlan(const Plan & p, Ctx & c)
       SIM_COUNT("op.aggregate");
       rc::DiagnosticReport total;
       std::vector<std::pair<int, std::string>> wantDiag; std::map<std::string, std::string> wantInfo;
+      // e.i != 0: the combined report starts as a header that carries info entries but no diagnostic yet
+      if (e.i != 0) {
+        rc::setReportInfo(total, "header", 42); wantInfo["header"] = "42";
+        if (e.i == 2) {const std::string & k0 = p.cus[(size_t)e.list[0] % n].name; rc::setReportInfo(total, k0, std::string("from-header")); wantInfo[k0] = "from-header";}
+        std::optional<double> none; rc::setReportInfo(total, "optional", none); wantInfo["optional"] = "";
+        SIM_PROBE("aggregate_into_header_report_with_info_only");
+      }
       int wantWorst = 0; bool wantAll = true;
       for (int raw : e.list) {
         size_t k = (size_t)raw % n;
@@ -240,7 +251,7 @@ struct PropC18
     p.ev = {T(0), E(0, 9.5), E(0, std::nextafter(9.5, 0)), E(0, 10.5), E(0, std::nextafter(10.5, 11)), T(0), T(0), E(0, 10),
       E(1, 11.75), E(1, std::nextafter(11.75, 12)), E(2, 82), E(2, std::nextafter(82, 0)), E(3, 0.25), E(3, 0.75),
       E(3, std::nextafter(0.25, 0)), E(3, std::nextafter(0.75, 0)), E(4, 1), E(4, -0.0), E(4, 4.9e-324), E(4, 1.7e308),
-      A({0, 1, 2, 3, 4}), A({4, 0}), A({0, 1, 2, 3, 4, 0, 1, 2, 3, 4, 0, 1, 2, 3, 4, 0, 1, 2, 3, 4}), S({0, 0, 0}), S({0, 1, 3, 2}), T(3)};
+      A({0, 1, 2, 3, 4}), A({4, 0}), Ev {2, 2, 0, {1, 0, 3}}, Ev {2, 1, 0, {2}}, A({0, 1, 2, 3, 4, 0, 1, 2, 3, 4, 0, 1, 2, 3, 4, 0, 1, 2, 3, 4}), S({0, 0, 0}), S({0, 1, 3, 2}), T(3)};
     scriptedPlans.push_back(p);
   }
 
@@ -293,6 +304,7 @@ struct PropC18
     for (int k = 0; k < n; ++k) {
       CU u; u.kind = (int)r.below(4); u.name = r.chance(0.8) ? std::string(names[k]) : std::string(r.pick(names));
       drawThresholds(r, u.kind, u.a, u.b);
+      if (r.chance(0.2)) {u.initStatus = (int)r.below(4); u.initMessage = r.chance(0.5) ? std::string("no data received from ") + u.name : std::string("booting");}
       p.cus.push_back(u);
     }
     // ---- discrete-event world: one sensor per check-up, a watchdog, an aggregator
@@ -322,7 +334,7 @@ struct PropC18
       } else {
         int len = (int)(r.chance(0.15) ? 20 : r.range(1, r.chance(0.5) ? n : 20));
         std::vector<int> l; for (int k = 0; k < len; ++k) {l.push_back((int)r.below((uint64_t)n));}
-        p.ev.push_back(A(l));
+        p.ev.push_back(A(l)); p.ev.back().i = r.chance(0.3) ? (int)r.range(1, 2) : 0;
         if (r.chance(0.3)) {
           std::vector<int> s; int sl = (int)r.range(1, 20); int bias = (int)r.below(3);
           for (int k = 0; k < sl; ++k) {s.push_back(bias == 0 ? 0 : (int)r.below(bias == 1 ? 2 : 4));}
@@ -347,6 +359,7 @@ struct PropC18
     for (auto & u : p.cus) {
       Json o = Json::object(); o.set("kind", model::kindName(u.kind)).set("kind_id", u.kind).set("name", u.name);
       o.set(u.kind == model::Reliability ? "low" : "target", u.a).set(u.kind == model::Reliability ? "high" : "epsilon", u.b);
+      if (u.initStatus >= 0) {o.set("initial_status", u.initStatus).set("initial_message", u.initMessage);}
       cu.push(o);
     }
     j.set("checkups", cu);
@@ -355,7 +368,7 @@ struct PropC18
       Json o = Json::object();
       if (e.kind == 0) {o.set("ev", "evaluate").set("checkup", e.i).set("value", e.v);} else if (e.kind == 1) {
         o.set("ev", "timeout").set("checkup", e.i);
-      } else {o.set("ev", e.kind == 2 ? "aggregate" : "status_list").set("list", Json::arrayOf(e.list));}
+      } else {o.set("ev", e.kind == 2 ? "aggregate" : "status_list").set("list", Json::arrayOf(e.list)); if (e.kind == 2 && e.i) {o.set("header_mode", e.i);}}
       ev.push(o);
     }
     j.set("events", ev);
@@ -367,13 +380,14 @@ struct PropC18
     for (auto & o : j["checkups"].a()) {
       CU u; u.kind = (int)o["kind_id"].i(); u.name = o["name"].s();
       u.a = u.kind == model::Reliability ? o["low"].d() : o["target"].d(); u.b = u.kind == model::Reliability ? o["high"].d() : o["epsilon"].d();
+      if (o.has("initial_status")) {u.initStatus = (int)o["initial_status"].i(); u.initMessage = o["initial_message"].s();}
       p.cus.push_back(u);
     }
     for (auto & o : j["events"].a()) {
       const std::string & k = o["ev"].s();
       if (k == "evaluate") {p.ev.push_back(E((int)o["checkup"].i(), o["value"].d()));} else if (k == "timeout") {p.ev.push_back(T((int)o["checkup"].i()));} else {
         std::vector<int> l; for (auto & x : o["list"].a()) {l.push_back((int)x.i());}
-        p.ev.push_back(k == "aggregate" ? A(l) : S(l));
+        p.ev.push_back(k == "aggregate" ? A(l) : S(l)); if (o.has("header_mode")) {p.ev.back().i = (int)o["header_mode"].i();}
       }
     }
     return p;
@@ -404,6 +418,7 @@ struct PropC18
     }
     for (size_t k = 0; k < p.cus.size(); ++k) {
       if (p.cus[k].name.size() > 1) {Plan q = p; q.cus[k].name = std::string(1, (char)('a' + k)); out.push_back(q);}
+      if (p.cus[k].initStatus >= 0) {Plan q = p; q.cus[k].initStatus = -1; q.cus[k].initMessage.clear(); out.push_back(q);}
     }
     return out;
   }
@@ -457,7 +472,7 @@ struct PropC18
   {
     return {"value_exactly_on_threshold", "value_one_ulp_from_threshold", "zero_epsilon", "reliability_exactly_on_threshold",
       "negative_zero_value", "denormal_value", "huge_value", "evaluate_after_timeout", "status_changed_by_evaluation",
-      "timeout_before_any_evaluation", "timeout_twice_in_a_row", "aggregate_duplicate_info_key", "aggregate_of_20_reports", "list_all_ok"};
+      "timeout_before_any_evaluation", "timeout_twice_in_a_row", "aggregate_duplicate_info_key", "aggregate_of_20_reports", "list_all_ok", "constructed_with_initial_diagnostic", "aggregate_into_header_report_with_info_only"};
   }
   Json describe() const
   {
